@@ -908,10 +908,17 @@ func (x *axCtx) stmts(env axEnv, stmts []ast.Stmt, k func() skel) skel {
 		}
 		return out
 	case *ast.ForStmt, *ast.RangeStmt:
+		// A loop is summarised: its tracked effects happen zero or more times (`upstreamMany`), and every `return`
+		// inside it is a way out that may or may not be taken (an opaque test per return statement, then the
+		// skeleton of that return). Conditions inside the body are not kept — so a body that looks at the identity
+		// is not summarised at all.
 		bad := false
+		var rets []*ast.ReturnStmt
 		ast.Inspect(v, func(n ast.Node) bool {
 			switch b := n.(type) {
-			case *ast.ReturnStmt, *ast.GoStmt, *ast.DeferStmt:
+			case *ast.ReturnStmt:
+				rets = append(rets, b)
+			case *ast.GoStmt, *ast.DeferStmt:
 				bad = true
 			case *ast.BranchStmt:
 				if b.Tok == token.GOTO {
@@ -923,7 +930,10 @@ func (x *axCtx) stmts(env axEnv, stmts []ast.Stmt, k func() skel) skel {
 			return true
 		})
 		if bad {
-			return sUnknown{"loop with return/goto/go/defer"}
+			return sUnknown{"loop with goto/go/defer"}
+		}
+		if x.identityText(exprText(x.p.Fset, v)) {
+			return sUnknown{"loop whose body reads the identity"}
 		}
 		effs, om := x.collect(env, v, true)
 		if len(om) > 0 {
@@ -934,7 +944,17 @@ func (x *axCtx) stmts(env axEnv, stmts []ast.Stmt, k func() skel) skel {
 				return sUnknown{"admin check inside a loop"}
 			}
 		}
-		return prependEffs(effs, restOf(env)())
+		out := restOf(env)()
+		for i := len(rets) - 1; i >= 0; i-- {
+			var leaf skel
+			if es, om := x.collect(env, rets[i], true); len(es) > 0 || len(om) > 0 {
+				leaf = sUnknown{"effect inside a return inside a loop"}
+			} else {
+				leaf = env.retK(env, rets[i].Results)
+			}
+			out = mkIte("(.other "+leanStr(fmt.Sprintf("loop left by return #%d: %s", i+1, exprText(x.p.Fset, rets[i])))+")", leaf, out)
+		}
+		return prependEffs(effs, out)
 	}
 	return sUnknown{fmt.Sprintf("statement %T", st)}
 }
